@@ -25,6 +25,7 @@ static int loop_ok;
 static uv_timer_t wd;
 static int wd_on, wd_fired;
 static int pend;                 /* callbacks the scenario still waits for */
+static int failed;               /* an unexpected error was reported: stop waiting, tear down */
 static char self_exe[512];
 
 static int fi_is_wakeup(int fd) {
@@ -45,6 +46,7 @@ static void on_death(void) {          /* ASan/UBSan report: keep the partial tra
   if (getpid() != fi_pid) return;
   if (ev_buf) __real_write(1, ev_buf, ev_len);
   __real_write(1, "|", 1);
+  if (pt_buf) __real_write(1, pt_buf, pt_len);
 }
 static void on_sigabrt(int s) { (void) s; fi_on = 0; fi_flush_and_exit(78); }   /* assert() */
 extern void __sanitizer_set_death_callback(void (*)(void));
@@ -57,34 +59,42 @@ static void api_begin(const char* name) {
 }
 static int api_end(const char* name, int rc, int mode) {
   char sfx[64] = "";
+  if (rc < 0 && !(mode & 2)) failed = 1;
   if (rc < 0 && loop_ok) {
     int dr = (int) L.active_reqs.count - (int) r0_, dh = (int) L.active_handles - (int) h0_;
     if (dr) snprintf(sfx + strlen(sfx), 30, "!r%+d", dr);
     if (dh) snprintf(sfx + strlen(sfx), 30, "!h%+d", dh);
   }
   if (rc < 0) ev("%s=%s%s", name, uv_err_name(rc), sfx);
-  else if (mode) ev("%s=ok", name);
+  else if (mode & 1) ev("%s=ok", name);
   else ev("%s=%d", name, rc);
   fi_api = "-";
   return rc;
 }
 #define API(name, expr) (api_begin(name), api_end(name, (int) (expr), 0))
 #define APIK(name, expr) (api_begin(name), api_end(name, (int) (expr), 1))
-static void cbev(const char* name, long st) {
+/* APIX: a call whose failure does not end the scenario (independent operation or expected error) */
+#define APIX(name, expr) (api_begin(name), api_end(name, (int) (expr), 2))
+#define APIXK(name, expr) (api_begin(name), api_end(name, (int) (expr), 3))
+static void cbevx(const char* name, long st) {
   if (st < 0) ev("cb.%s=%s", name, uv_err_name((int) st)); else ev("cb.%s=%ld", name, st);
 }
+static void cbev(const char* name, long st) { if (st < 0) failed = 1; cbevx(name, st); }
 
 static void wd_cb(uv_timer_t* t) { (void) t; wd_fired = 1; }
-static void run_pending(void) {
+/* returns non-zero when the scenario should go to its epilogue */
+static int run_pending(void) {
   int i;
-  for (i = 0; i < 5000 && pend > 0 && !wd_fired; i++) {
-    if (!uv_loop_alive(&L)) { ev("stall=%d", pend); return; }
+  for (i = 0; i < 5000 && pend > 0 && !wd_fired && !failed; i++) {
+    if (!uv_loop_alive(&L)) { ev("stall=%d", pend); return 1; }
     fi_api = "run";
     uv_run(&L, UV_RUN_ONCE);
     fi_api = "-";
   }
-  if (wd_fired) ev("WATCHDOG=%d", pend);
-  else if (pend > 0) ev("CAP=%d", pend);
+  if (failed) { pend = 0; return 1; }
+  if (wd_fired) { ev("WATCHDOG=%d", pend); return 1; }
+  if (pend > 0) { ev("CAP=%d", pend); return 1; }
+  return 0;
 }
 static void run_nowait(int n) {
   int i;
@@ -95,7 +105,7 @@ static int loop_begin(void) {
   if (API("loop_init", uv_loop_init(&L)) != 0) return -1;
   loop_ok = 1;
   uv_timer_init(&L, &wd);
-  uv_timer_start(&wd, wd_cb, 4000, 0);
+  uv_timer_start(&wd, wd_cb, 2000, 0);
   uv_unref((uv_handle_t*) &wd);
   wd_on = 1;
   return 0;
@@ -131,7 +141,7 @@ static void loop_end(void) {
     fi_api = "teardown";
     uv_walk(&L, walk_close, NULL);
     /* everything user-visible is closing now; completion must not need more than this */
-    uv_timer_start(&wd, wd_cb, 2500, 0);
+    uv_timer_start(&wd, wd_cb, 800, 0);
     wd_fired = 0;
     for (i = 0; i < 5000 && uv_loop_alive(&L) && !wd_fired; i++) {
       fi_api = "run";
@@ -190,14 +200,11 @@ static void final_report(void) {
 struct scen { const char* name; void (*fn)(void); };
 static const struct scen scens[] = { SCENARIOS {NULL, NULL} };
 
-static void run_case(const char* scen, const char* plan, const char* dir) {
-  char wdir[600];
+static void run_case(const char* scen, const char* plan, const char* wdir) {
   int i;
   struct rlimit rl;
   fi_main = pthread_self();
   fi_pid = getpid();
-  snprintf(wdir, sizeof wdir, "%s/%d", dir, (int) fi_pid);
-  mkdir(wdir, 0700);
   if (chdir(wdir)) _exit(3);
   setenv("UV_THREADPOOL_SIZE", "1", 1);
   setenv("C16_VAR", "value", 1);
@@ -219,6 +226,9 @@ static void run_case(const char* scen, const char* plan, const char* dir) {
   ev("NOSCENARIO");
   fi_flush_and_exit(4);
 }
+
+#include <ftw.h>
+static int rm_cb(const char* p, const struct stat* st, int flag, struct FTW* f) { (void) st; (void) flag; (void) f; return remove(p); }
 
 static char* slurp(int fd, size_t* len) {
   off_t n = lseek(fd, 0, SEEK_END);
@@ -279,7 +289,7 @@ int main(int argc, char** argv) {
   signal(SIGPIPE, SIG_IGN);
   while (fgets(line, sizeof line, stdin)) {
     char scen[128], plan[3800];
-    char tmpl1[600], tmpl2[600], dg[6000];
+    char tmpl1[600], tmpl2[600], dg[6000], wdir[600]; static int serial;
     int fo, fe, status = 0, waited = 0, i;
     pid_t pid;
     char* out; char* err; size_t no, ne;
@@ -291,13 +301,15 @@ int main(int argc, char** argv) {
     if (fo < 0 || fe < 0) { printf("HARNESS-ERROR|mkstemp||\n"); fflush(stdout); continue; }
     unlink(tmpl1); unlink(tmpl2);
     fflush(stdout);
+    snprintf(wdir, sizeof wdir, "%s/%d_%d", dir, (int) getpid(), serial++);
+    mkdir(wdir, 0700);
     pid = __real_fork();
     if (pid == 0) {
       __real_dup2(fo, 1); __real_dup2(fe, 2);
       __real_syscall(SYS_close, fo); __real_syscall(SYS_close, fe);
       __real_syscall(SYS_close, 0);
       if (__real_open64("/dev/null", O_RDONLY) != 0) _exit(5);
-      run_case(scen, plan, dir);
+      run_case(scen, plan, wdir);
       _exit(6);
     }
     /* parent: wait (the child has its own alarm; this is the backstop) */
@@ -308,6 +320,7 @@ int main(int argc, char** argv) {
       __real_nanosleep(&ts, NULL);
     }
     if (!waited) { kill(pid, SIGKILL); __real_waitpid(pid, &status, 0); }
+    nftw(wdir, rm_cb, 16, FTW_DEPTH | FTW_PHYS);
     out = slurp(fo, &no); err = slurp(fe, &ne);
     __real_syscall(SYS_close, fo); __real_syscall(SYS_close, fe);
     if (!waited) st = "HANG";
